@@ -478,7 +478,7 @@ RAW_DOCS = {
 def run_raw(res, name, findings=()):
     shims.install()
     pieces = RAW_DOCS[name]
-    ex = Explorer(max_paths=20000, path_ops=6000)
+    ex = Explorer(max_paths=20000, path_ops=6000, path_wall_s=120)
 
     def fn(ex):
         items = list("@prefix e: <http://e.f/> .\n")
